@@ -131,6 +131,18 @@ def ev_manual(w, branch, kind='commit', author=AUTHOR):
                             'resolved %d\n' % n,
                             'manual fix on %s (merge)' % branch, author,
                             extra_parents=[w.refs()[other[0]]])
+    elif kind == 'resolve':
+        # the author redoes the integration branch by hand, as Bert-E's
+        # conflict message instructs: start from the destination branch,
+        # merge the previous integration (or source) branch, resolve, push -f
+        ver = branch.split('/')[1]
+        src = branch.split('/', 2)[2]
+        dst = [b for b in w.heads() if b.split('/')[0] in (
+            'development', 'stabilization') and b.split('/', 1)[1] == ver][0]
+        sha = w.commit_file(w.refs()[dst], 'manual_resolution_%s' %
+                            sanitize(branch), 'resolved\n',
+                            'manual fix on %s (conflict resolution)' % branch,
+                            author, extra_parents=[w.refs()[src]])
     else:
         raise ValueError(kind)
     w.set_ref(branch, sha)
